@@ -3,7 +3,7 @@ from lib.coqterm import cbool, clist, copt
 
 ID = "C04"
 QUICK_N = 2500
-THOROUGH_N = 40000
+THOROUGH_N = 20000
 SHARD = 400
 RULE = ("4% real-layer cases (an h2 client with 2-4 concurrent streams on a real HttpLayer, HTTP/1 or HTTP/2 upstream, hooks and connection attempts deferred and completed in a generated order: at quiescence no layer is paused, no completion sits in a foreign queue, every request went upstream once); otherwise handler tables (<=4 entries, each a program of <=5 yields with blocking flags and reply-dependent branches) x "
         "schedules of <=16 events mixing external events with completions for the awaited command (60%), for other "
